@@ -110,6 +110,9 @@ class Dfs(Contract):
 
     def apply_at_call(self, I, fn, args, kwargs):
         """recursive call (induction hypothesis): the state after it is arbitrary but satisfies the contract's clauses"""
+        if getattr(I.p, "in_comprehension", False):
+            from pyvc.interp import Unsupported
+            raise Unsupported("a call that changes the bookkeeping state inside a comprehension (the comprehension rule covers pure element expressions)")
         names = self.call_names(fn, args, kwargs, I)
         node = V.lower(names["node"])
         env = fn.env
